@@ -332,12 +332,22 @@ def build_harness(ck, cfgs, jobs=4):
     groups = [g for g in groups if g]
     flags = verif.CXXFLAGS_SAN + ["-fno-var-tracking-assignments", "-c"]
     src = "harness/C01/btree_harness.cpp"
+    # const_iterator(const const_reverse_iterator&) is declared but ill-formed when used as long as
+    # const_reverse_iterator does not befriend const_iterator (docs/audit/C01.md, F3): probe the working tree,
+    # and exercise the conversion at every position as soon as it compiles
+    probe = os.path.join(ck.scratch, "probe_cri.cpp")
+    with open(probe, "w") as f:
+        f.write("#include <tlx/container/btree_set.hpp>\n"
+                "void f(tlx::btree_set<int>::const_reverse_iterator r) { tlx::btree_set<int>::const_iterator c(r); (void)c; }\n")
+    rc, _ = verif.sh([verif.CXX, "-std=c++17", "-fsyntax-only", "-I", verif.REPO, probe], timeout=120)
+    cri = ["-DTLX_HAS_CRI_TO_CI"] if rc == 0 else []
+    ck.coverage["const_reverse_iterator_to_const_iterator_compiles"] = (rc == 0)
 
     def one(idx):
         inc = os.path.join(ck.scratch, "cfg_%d.inc" % idx)
         with open(inc, "w") as f:
             f.write("".join("CFG(%s, %d, %d, %d, %d)\n" % c for c in groups[idx]))
-        extra = ['-DCONFIGS_INC="cfg_%d.inc"' % idx, "-I", ck.scratch] + (["-DHARNESS_MAIN"] if idx == 0 else [])
+        extra = ['-DCONFIGS_INC="cfg_%d.inc"' % idx, "-I", ck.scratch] + (["-DHARNESS_MAIN"] if idx == 0 else []) + cri
         return ck.build_cpp("tu_%d.o" % idx, [src], flags=flags, extra=extra)
 
     with concurrent.futures.ThreadPoolExecutor(max_workers=jobs) as ex:
